@@ -175,6 +175,8 @@ def oracle(case, out):
         rc = vals(out, q["value"], "rc")
         if rc is None:
             return viol + ["script query produced no result"]
+        if vals(out, q["step"], "rc") != [0]:
+            continue          # the engine step itself failed (e.g. every component of a variable switched off by cvcflags): nothing was handed to the engine
         if q["have_d"] and rc[0] == 0:
             xv = vals(out, q["d"], "x")
             res = vals(out, q["value"], "res")
